@@ -12,11 +12,12 @@ logging.disable(logging.CRITICAL)
 
 from _griffe.loader import GriffeLoader  # noqa: E402
 
-HEADER = "from dataclasses import dataclass, field, KW_ONLY, InitVar\nfrom typing import ClassVar\nimport dataclasses\n\n"
+HEADER = "from dataclasses import dataclass, field, KW_ONLY, InitVar\nfrom typing import ClassVar\nimport dataclasses\nimport typing\n\n"
 FORMS = [
     "{n}: int", "{n}: int = 1", "{n}: int = field(default=2)", "{n}: list = field(default_factory=list)", "{n}: int = field(init=False, default=3)",
     "{n}: int = field(kw_only=True)", "{n}: int = field(kw_only=True, default=4)", "{n}: ClassVar[int] = 5", "{n}: InitVar[int]", "_: KW_ONLY",
     "{n} = 6", "@property\n    def {n}(self) -> int: return 7", "{n}: int = dataclasses.field(default=8)", "{n}: int = field()", "{n}: int = field(kw_only=False)",
+    "{n}: ClassVar = 9", "{n}: typing.ClassVar = 10",
 ]
 DECOS = ["@dataclass", "@dataclass()", "@dataclass(init=False)", "@dataclass(kw_only=True)", "@dataclasses.dataclass(kw_only=True, init=True)"]
 
@@ -40,6 +41,10 @@ def cases():
             base = class_src("B", None, bd, [bf.format(n="a"), "b: int = 0"])
             yield base + class_src("C", "B", cd, [cf.format(n="a")]), ["B", "C"]
             yield base + class_src("C", "B", cd, [cf.format(n="c")]), ["B", "C"]
+    # init-only variables and class variables of a base, under every pair of decorator arguments (a base without generated __init__ still contributes them)
+    for bd, cd in itertools.product(DECOS[:4], DECOS[:4]):
+        for bf in ("a: InitVar[int]", "a: InitVar[int] = 7", "a: ClassVar[int] = 5", "a: ClassVar = 5"):
+            yield class_src("B", None, bd, [bf, "b: int = 0"]) + class_src("C", "B", cd, ["c: int = 1"]), ["B", "C"]
     # hand-written __init__, non-dataclass classes, subclass of a dataclass without decorator, two children of one base
     yield class_src("C", None, "@dataclass", ["a: int"], "    def __init__(self, z): self.a = z"), ["C"]
     yield "class P:\n    a: int = 1\n", ["P"]
